@@ -39,6 +39,11 @@ CHECKS = {
   text="Reference-model monitor: generated sets of 2-8 templates in directory trees (backed by real files in one or two roots, or by put_string) are connected by <%include> (with/without args), <%namespace> (tag()/body(), inline defs, import=, inheritable reached through self from a derived template, module=), <%inherit> and the Namespace API, spelled as relative (plain, ./, ../, sub/) or absolute URIs, a few unresolvable; every template prints a tag naming its own file, the context value and <%page> argument it sees, whether `parent` is in its context and what self.tag() is, so the output states which file was reached with which context; expected output comes from a reference that resolves URIs with posixpath against the URI of the template the reference is written in.",
   note="Trusted: the reference in checks/c07.py. Not asserted: whether using a def of a template already evaluates that template's other (unresolvable) namespace declarations; dot segments with put_string keys. One open known finding (included template that inherits does not get context-supplied <%page> arguments).",
   technique="reference-model differential oracle over generated template sets with by-construction file tags"),
+ "C08": dict(
+  category="exploration", design_ref="DESIGN.md §2 C08",
+  text="Differential runtime oracle without a model: generated templates (C05 documents, C01 Unicode documents, 'set-order' templates aimed at generated code that iterates over sets, defs-only templates) are rendered on 10 in-process paths (Template from string / file / module directory first load and reload, ModuleTemplate over the generated module file, render, render_unicode, render_context, the mako-render command through mako.cmd.cmdline, get_def(name).render vs a wrapper template) and, in fresh child processes under PYTHONHASHSEED 0/1/2/3/random, on the string / file / module-reload paths; all outputs, Template.source, the uri/filename metadata in Template.code and has_def/list_defs must agree. Lookup variants (module_directory, modulename_callable, 5 URI spellings, 3 URIs differing only in punctuation loaded side by side) are compared the same way.",
+  note="Trusted: nothing beyond equality of observations. mako-render is driven without --output-encoding. One open known finding (module id collision for URIs differing only in non-word characters; repair blocked by pinned module names).",
+  technique="differential execution across construction/render paths and hash seeds (subprocess per seed)"),
  "C09": dict(
   category="exploration", design_ref="DESIGN.md §2 C09",
   text="Every URI of the stated segment/separator/leading alphabet (exhaustive up to 4 segments quick, 6 thorough) is looked up on real TemplateLookup objects over a fixture tree with canary files at every place a traversal could land, directly and through include/inherit/namespace/Namespace-API calls from callers at depth 0..3; a sys.addaudithook file-access monitor, the realpath of every returned Template.filename and a canary scan of the output decide containment.",
